@@ -88,7 +88,16 @@ type RegGen struct {
 	StartID uint64 `json:"startId,omitempty"`
 }
 type StrGen struct {
-	ValFee string `json:"valFee"` // decimal string e.g. "0.01"
+	FeeNum int64 `json:"feeNum"` // validator fee = feeNum/feeDen
+	FeeDen int64 `json:"feeDen"`
+}
+
+// decOf builds the decimal feeNum/feeDen (feeDen = 0 stands for a nil Dec).
+func decOf(num, den int64) sdk.Dec {
+	if den == 0 {
+		return sdk.Dec{}
+	}
+	return sdk.NewDec(num).QuoInt64(den)
 }
 
 func DefaultGenSpec() GenSpec {
@@ -102,7 +111,7 @@ func DefaultGenSpec() GenSpec {
 		Ent: EntGen{Signers: []string{"A1", "A2"}, Min: 1, Limit: 4, Denom: "nund", WL: []string{"A3", "A4"}, StartID: 1},
 		Wrk: RegGen{FeeReg: 24, FeeRec: 2, FeePur: 3, Denom: "nund", Def: 2, Max: 4, StartID: 1},
 		Bcn: RegGen{FeeReg: 20, FeeRec: 1, FeePur: 5, Denom: "nund", Def: 2, Max: 4, StartID: 1},
-		Str: StrGen{ValFee: "0.01"},
+		Str: StrGen{FeeNum: 1, FeeDen: 100},
 	}
 }
 
@@ -332,10 +341,7 @@ func (w *World) buildGenesis() (app.GenesisState, error) {
 	gs[beacontypes.ModuleName] = cdc.MustMarshalJSON(beacontypes.NewGenesisState(
 		beacontypes.NewParams(g.Bcn.FeeReg, g.Bcn.FeeRec, g.Bcn.FeePur, g.Bcn.Denom, g.Bcn.Def, g.Bcn.Max), bs, nil))
 
-	vf, err := sdk.NewDecFromStr(g.Str.ValFee)
-	if err != nil {
-		return nil, err
-	}
+	vf := decOf(g.Str.FeeNum, g.Str.FeeDen)
 	sg := streamtypes.DefaultGenesis()
 	sg.Params = streamtypes.NewParams(vf)
 	gs[streamtypes.ModuleName] = cdc.MustMarshalJSON(sg)
